@@ -63,6 +63,20 @@ def install_channels(*names):
             register_patch(Wc.write_count, wc)
             register_patch(Rc.read_count, lambda self: _pop("c"))
             stubs.STUBS_IN_FORCE.append("abstraction:count channel (contract = count_rt)")
+        elif nm == "transition":
+            def wt(self, previous, value):
+                CHAN.append(("t", (previous, value)))
+
+            def rt(self, previous):
+                prev_w, value = _pop("t")
+                same = (previous is None and prev_w is None) or (previous is not None and prev_w is not None and previous == prev_w)
+                if not same:
+                    raise AssertionError("reader and writer disagree on the previous transition")
+                return value
+            register_patch(Wc.write_zone_interval_transition, wt)
+            register_patch(Rc.read_zone_interval_transition, rt)
+            stubs.STUBS_IN_FORCE.append("abstraction:transition channel (contract = transition_rt / transition_markers: the value written is the value "
+                                        "read when reader and writer use the same previous transition - which the channel checks)")
         elif nm == "signed":
             register_patch(Wc.write_signed_count, lambda self, v: CHAN.append(("s", v)))
             register_patch(Rc.read_signed_count, lambda self: _pop("s"))
@@ -356,4 +370,143 @@ def fixed_width_rt(P):
         del chan[:]
         w._DateTimeZoneWriter__write_int64(v)
         return r._DateTimeZoneReader__read_int64() == v and not chan
+    return h
+
+
+# ------------------------------------------------------------------ composites: recurrence, alternating map, dictionary, precalculated zone
+from pyoda_time.time_zones._zone_recurrence import _ZoneRecurrence  # noqa: E402
+from pyoda_time.time_zones._standard_daylight_alternating_map import _StandardDaylightAlternatingMap  # noqa: E402
+
+INT_MIN, INT_MAX = -2 ** 31, 2 ** 31 - 1
+POOL5 = ["LMT", "GMT", "BST", "CET", "CEST"]
+
+
+def _rule(month, dom, dow, adv, ms):
+    assume(1 <= month <= 12)
+    assume(-31 <= dom <= 31)
+    assume(dom != 0)
+    assume(0 <= dow <= 7)
+    assume(0 <= ms < MPD)
+    return _ZoneYearOffset._ctor(_TransitionMode.WALL, month, dom, dow, adv, LocalTime.from_milliseconds_since_midnight(ms), False)
+
+
+@lemma({"sav": int, "month": int, "dom": int, "dow": int, "adv": bool, "ms": int, "fy": int, "ty": int}, params=["infinite", "finite"], budget=120, per_path=30,
+       bounds="every _ZoneRecurrence the writer accepts: savings in +-18h; 'infinite': from_year INT_MIN, to_year INT_MAX, any rule (month, day, "
+              "weekday, advance flag, time of day); 'finite': from_year in [-9998, 9999], to_year in [max(from_year, 0), 9999], a fixed rule (1 March "
+              "00:00): write then read returns an equal recurrence and consumes exactly what was written (primitives as channels).  from_year "
+              "in [-9998, 0] is written as 0 and read back as INT_MIN: listed as a known finding")
+def recurrence_rt(P):
+    install_channels("millis", "count", "signed")
+    if P == "finite":
+        from props import calsetup as cs
+        from props import ymdrecord
+        cs.prepare("ISO")
+        ymdrecord.install()
+
+    def h(sav, month, dom, dow, adv, ms, fy, ty):
+        del CHAN[:]
+        assume(-64800 <= sav <= 64800)
+        if P == "infinite":
+            assume(fy == INT_MIN)
+            assume(ty == INT_MAX)
+            rule = _rule(month, dom, dow, adv, ms)
+        else:
+            assume(-9998 <= fy <= 9999)
+            assume(max(fy, 0) <= ty <= 9999)
+            rule = _ZoneYearOffset._ctor(_TransitionMode.WALL, 3, 1, 0, False, LocalTime(0, 0), False)
+        rec = _ZoneRecurrence("BST", Offset.from_seconds(sav), rule, fy, ty)
+        s, w = W(list(POOL5))
+        rec._write(w)
+        back = _ZoneRecurrence.read(R(s, list(POOL5)))
+        return (back.equals(rec) and back.from_year == fy and back.to_year == ty and back.savings.seconds == sav and back.name == "BST"
+                and done(s) and not CHAN)
+    return h
+
+
+@lemma({"std": int, "sav": int, "m1": int, "d1": int, "w1": int, "a1": bool, "t1": int, "m2": int, "d2": int, "w2": int, "a2": bool, "t2": int},
+       params=["all-maps"], budget=120, per_path=30,
+       bounds="every _StandardDaylightAlternatingMap: standard offset in +-18h, non-zero savings with standard + savings in +-18h, two arbitrary "
+              "yearly rules: write then read returns an equal map (standard offset, both names, both rules, savings) and consumes exactly what was written")
+def altmap_rt(P):
+    install_channels("millis", "count", "signed")
+
+    def h(std, sav, m1, d1, w1, a1, t1, m2, d2, w2, a2, t2):
+        del CHAN[:]
+        assume(-64800 <= std <= 64800)
+        assume(-64800 <= sav <= 64800)
+        assume(sav != 0)
+        assume(-64800 <= std + sav <= 64800)
+        r_std = _ZoneRecurrence("GMT", Offset.zero, _rule(m1, d1, w1, a1, t1), INT_MIN, INT_MAX)
+        r_dst = _ZoneRecurrence("BST", Offset.from_seconds(sav), _rule(m2, d2, w2, a2, t2), INT_MIN, INT_MAX)
+        amap = _StandardDaylightAlternatingMap._ctor(Offset.from_seconds(std), r_std, r_dst)
+        s, w = W(list(POOL5))
+        amap._write(w)
+        back = _StandardDaylightAlternatingMap._read(R(s, list(POOL5)))
+        b_std, b_dst = back._StandardDaylightAlternatingMap__standard_recurrence, back._StandardDaylightAlternatingMap__dst_recurrence
+        return (back.equals(amap) and back._StandardDaylightAlternatingMap__standard_offset.seconds == std and b_dst.savings.seconds == sav
+                and b_std.name == "GMT" and b_dst.name == "BST" and b_std.year_offset == r_std.year_offset and b_dst.year_offset == r_dst.year_offset
+                and done(s) and not CHAN)
+    return h
+
+
+@lemma({"k0": int, "v0": int, "k1": int, "v1": int, "n": int}, budget=60,
+       bounds="every dictionary of 0..2 entries whose keys and values are any of 5 pooled strings (distinct keys): write then read returns an equal dictionary")
+def dictionary_rt(k0, v0, k1, v1, n):
+    for x in (k0, v0, k1, v1):
+        assume(0 <= x < 5)
+    assume(0 <= n <= 2)
+    assume(k0 != k1)
+    items = [(POOL5[int(k0)], POOL5[int(v0)]), (POOL5[int(k1)], POOL5[int(v1)])][:int(n)]
+    d = dict(items)
+    s, w = W(list(POOL5))
+    w.write_dictionary(d)
+    back = R(s, list(POOL5)).read_dictionary()
+    return back == d and list(back.items()) == items and done(s)
+
+
+@lemma({"d1": int, "n1": int, "d2": int, "n2": int, "o0": int, "o1": int, "o2": int, "s1": int}, params=["no-tail", "tail"], budget=200, per_path=60,
+       bounds="every _PrecalculatedDateTimeZone with three periods (start of time -> t1 -> t2 -> end of time / tail start; the transition instants "
+              "are fixed and travel through the transition channel, whose contract covers every instant), any wall offsets in +-18h, any savings on the middle period, with and without a (fixed) recurring tail: "
+              "write then read returns the same periods (names, bounds, offsets, savings) and tail, consuming exactly what was written")
+def precalc_rt(P):
+    from pyoda_time.time_zones import ZoneInterval
+    from pyoda_time.time_zones._precalculated_date_time_zone import _PrecalculatedDateTimeZone
+    install_channels("transition", "millis", "count", "signed")
+    tail = None
+    if P == "tail":
+        r_std = _ZoneRecurrence("GMT", Offset.zero, _ZoneYearOffset._ctor(_TransitionMode.UTC, 10, -1, 7, False, LocalTime(1, 0), False), INT_MIN, INT_MAX)
+        r_dst = _ZoneRecurrence("BST", Offset.from_seconds(3600), _ZoneYearOffset._ctor(_TransitionMode.UTC, 3, -1, 7, False, LocalTime(1, 0), False), INT_MIN, INT_MAX)
+        tail = _StandardDaylightAlternatingMap._ctor(Offset.zero, r_std, r_dst)
+
+    def h(d1, n1, d2, n2, o0, o1, o2, s1):
+        del CHAN[:]
+        # the transition instants travel through the transition channel (opaque to the rest of the codec): two fixed instants suffice
+        assume(d1 == -25567)
+        assume(n1 == 0)
+        assume(d2 == 19700)                # 2023-12-09: standard time under the fixed tail's rule
+        assume(n2 == 0)
+        t1, t2 = _inst(-25567, 0), _inst(19700, 0)
+        for o in (o0, o1, o2):
+            assume(-64800 <= o <= 64800)
+        assume(-64800 <= s1 <= 64800)
+        if P == "tail":
+            assume(o2 == 0)                # the tail continues the last period seamlessly
+        ivs = [ZoneInterval(name="LMT", start=None, end=t1, wall_offset=Offset.from_seconds(o0), savings=Offset.zero),
+               ZoneInterval(name="BST", start=t1, end=t2, wall_offset=Offset.from_seconds(o1), savings=Offset.from_seconds(s1)),
+               ZoneInterval(name="GMT", start=t2, end=None if P == "no-tail" else _inst(19800, 0), wall_offset=Offset.from_seconds(o2), savings=Offset.zero)]
+        if (o0, 0) == (o1, s1) or (o1, s1) == (o2, 0):
+            pass                             # (adjacent periods may coincide in offsets; names differ)
+        zone = _PrecalculatedDateTimeZone("Test/Zone", ivs, tail)
+        s, w = W(list(POOL5))
+        zone._write(w)
+        back = _PrecalculatedDateTimeZone._read(R(s, list(POOL5)), "Test/Zone")
+        got = back._PrecalculatedDateTimeZone__periods
+        if len(got) != 3 or not done(s) or CHAN:
+            return False
+        for a, b in zip(got, ivs):
+            if not (a.name == b.name and a._raw_start == b._raw_start and a._raw_end == b._raw_end
+                    and a.wall_offset.seconds == b.wall_offset.seconds and a.savings.seconds == b.savings.seconds):
+                return False
+        bt = back._PrecalculatedDateTimeZone__tail_zone
+        return (bt is None) if tail is None else (bt is not None and bt.equals(tail))
     return h
